@@ -140,6 +140,11 @@ class HierarchicalProblem(up.model.problem.Problem):
                 return TEMPORAL
 
         ordering_kind = lvl(self.task_network)
+        for task in self.tasks:
+            for task_param in task.parameters:
+                factory.update_problem_kind_type(task_param.type)
+        for variable in self.task_network.variables:
+            factory.update_problem_kind_type(variable.type)
         if len(self.task_network.variables) > 0:
             factory.kind.set_hierarchical("INITIAL_TASK_NETWORK_VARIABLES")
         non_temporal = self.task_network.non_temporal_constraints()
@@ -150,6 +155,8 @@ class HierarchicalProblem(up.model.problem.Problem):
 
         for method in self.methods:
             ordering_kind = max(ordering_kind, lvl(method))
+            for method_param in method.parameters:
+                factory.update_problem_kind_type(method_param.type)
             for method_cond in method.preconditions:
                 factory.kind.set_hierarchical("METHOD_PRECONDITIONS")
                 factory.update_problem_kind_expression(method_cond)
